@@ -18,7 +18,7 @@ META = {
     "outside": ["two concurrent gwf processes", "file-system reordering of writes", "more than 3 targets"],
 }
 
-FAULT_KINDS = ["non-zero exit", "error: on stderr, exit 0", "garbage on stdout, exit 0"]
+FAULT_KINDS = ["non-zero exit", "error: on stderr, exit 0", "garbage on stdout, exit 0", "correct answer that arrives late"]
 
 
 def _load_ok(pr):
@@ -91,14 +91,16 @@ def setup_q9a(shard):
 def _q9a(k, kind):
     sh = q.SHARD
     be, shape = sh["be"], sh["shape"]
-    if not (1 <= k and k <= NCMD9A["n"] and q.in_range(kind, 3)):
+    if not (1 <= k and k <= NCMD9A["n"] and q.in_range(kind, 4)):
         return q.SKIP
     if be == "local" and kind != 0:
+        return q.SKIP
+    if kind == 3 and not sh.get("late"):
         return q.SKIP
     kk = 1
     while kk < k:
         kk += 1
-    kind = q.pick([0, 1, 2], kind)
+    kind = q.pick([0, 1, 2, 3], kind)
     if kind == 2 and be in ("slurm", "sge") and q.excluded("C09-garbage-id"):
         return q.SKIP
     with q.notrace():
@@ -155,6 +157,10 @@ def _q9a(k, kind):
         for nm in tracked:
             if nm not in accepted and not prior_jobs:
                 return "a job id is recorded for %s although the scheduler accepted nothing for it: %r" % (nm, tracked[nm])
+        if kind == 3:
+            # nothing failed: the scheduler carried out every command, one answer merely took long.  Every accepted job is on record
+            # (checked above) and the next run must not submit any of them again.
+            return _second_run_checks(pr, be, jobs1, len(prior_jobs))
         if failed is None:
             return "command %d failed (%s) but the run reported success" % (kk, FAULT_KINDS[kind])
         done = ()
@@ -286,11 +292,11 @@ QUERIES = [
     {"name": "Q9a", "fn": q9a, "setup": setup_q9a,
      "shards": {"quick": [{"be": "slurm", "shape": "chain2"}, {"be": "slurm", "shape": "fork3"}, {"be": "lsf", "shape": "chain2"}, {"be": "local", "shape": "chain2"},
                           {"be": "slurm", "shape": "chain3", "prior": True}, {"be": "sge", "shape": "chain2", "prior": True},
-                          {"be": "slurm", "shape": "fork3", "progress": True}, {"be": "slurm", "shape": "chain3", "progress": True}],
+                          {"be": "slurm", "shape": "fork3", "progress": True}, {"be": "slurm", "shape": "chain3", "progress": True}, {"be": "slurm", "shape": "chain2", "late": True}, {"be": "sge", "shape": "chain2", "late": True}],
                 "thorough": [{"be": b, "shape": s, "prior": p} for b in ("slurm", "sge", "lsf", "local") for s in ("chain2", "fork3", "chain3") for p in (False, True)]
                             + [{"be": b, "shape": s, "progress": True} for b in ("slurm", "sge", "lsf") for s in ("fork3", "chain3")]},
      "timeout": {"quick": 900, "thorough": 1800},
-     "bound": "(optionally after an earlier complete run whose jobs then failed / were cancelled) fault at the k-th scheduler command of the run (k symbolic from 1 to the number of commands an uninterrupted run issues, measured at start-up: state queries and submissions), 3 fault kinds; then (in the progress shards: after the first accepted job finished while the others are still queued, Slurm accounting lagging behind a requeue) a fault-free run; chain of 2, fork of 3 (quick); + chain of 3, all backends (thorough); spec hashing on"},
+     "bound": "(optionally after an earlier complete run whose jobs then failed / were cancelled) fault at the k-th scheduler command of the run (k symbolic from 1 to the number of commands an uninterrupted run issues, measured at start-up: state queries and submissions), 3 fault kinds (+ in the late shards: a command that is carried out but answers late); then (in the progress shards: after the first accepted job finished while the others are still queued, Slurm accounting lagging behind a requeue) a fault-free run; chain of 2, fork of 3 (quick); + chain of 3, all backends (thorough); spec hashing on"},
     {"name": "W9b", "fn": w9b, "setup": setup_q9b, "shards": [], "timeout": 60, "bound": "witness of the known finding C09-hard-kill-loses-ids (concrete)"},
     {"name": "Q9b", "fn": q9b, "setup": setup_q9b,
      "shards": {"quick": [{"be": "slurm", "shape": "chain2"}, {"be": "slurm", "shape": "chain2", "prior": True}, {"be": "sge", "shape": "chain2"}, {"be": "lsf", "shape": "chain2", "prior": True}],
